@@ -1516,4 +1516,154 @@ theorem bestEffortFromUtf16_in_bounds (be : Bool) (as : AStr) (xs : List Nat) (b
   have hc := ensure_cap_ge as (as.data.length + bytes + 1)
   exact bestEffortFromUtf16Loop_spec be bytes xs _ 0 hl (by rw [ensure_data]; omega)
 
+theorem utf8ToUtf8Loop_ret_neg :
+    ∀ (len : Nat) (xs out : List Nat) (r : Int) (res : List Nat),
+      utf8ToUtf8Loop xs len out (-1) = .ok r res → r = -1 := by
+  intro len
+  induction len using Nat.strongRecOn with
+  | ind len ih =>
+    intro xs out r res h
+    rw [utf8ToUtf8Loop] at h
+    cases hp : utf8ToUnicode xs len with
+    | oob => simp [hp] at h
+    | ret r0 uc =>
+      simp only [hp] at h
+      by_cases hr0 : r0 = 0
+      · simp only [hr0, if_true, Conv.ok.injEq] at h; exact h.1.symm
+      rw [if_neg hr0] at h
+      by_cases hpos : 0 < r0
+      · rw [if_pos hpos] at h
+        split at h
+        · exact ih _ (by omega) _ _ _ _ h
+        · simp at h
+      · rw [if_neg hpos] at h
+        split at h
+        · simp at h
+        · rename_i n uc' _
+          split at h
+          · simp at h
+          · split at h
+            · have : (if n < 0 then (-1 : Int) else -1) = -1 := by split <;> rfl
+              rw [this] at h
+              exact ih _ (by omega) _ _ _ _ h
+            · simp at h
+
+/-- UTF-8 → UTF-8 that reports no failure: the source was a sequence of non-zero scalar values in
+UTF-8 (CESU-8 pairs allowed), read to its end, and the output is the regular UTF-8 of that sequence. -/
+theorem utf8ToUtf8Loop_sound :
+    ∀ (len : Nat) (xs acc out : List Nat), len ≤ xs.length →
+      utf8ToUtf8Loop xs len acc 0 = .ok 0 out →
+      ∃ items : List (Nat × Bool),
+        (∀ it ∈ items, Carries .utf8 it.1 ∧ (it.2 = true → 0x10000 ≤ it.1)) ∧
+        (items.flatMap (fun it => srcItem .utf8 it.1 it.2)).length ≤ len ∧
+        xs.take (items.flatMap (fun it => srcItem .utf8 it.1 it.2)).length = items.flatMap (fun it => srcItem .utf8 it.1 it.2) ∧
+        ((items.flatMap (fun it => srcItem .utf8 it.1 it.2)).length = len ∨
+          xs[(items.flatMap (fun it => srcItem .utf8 it.1 it.2)).length]? = some 0) ∧
+        out = acc ++ encSeq .utf8 (items.map (·.1)) := by
+  intro len
+  induction len using Nat.strongRecOn with
+  | ind len ih =>
+    intro xs acc out hlen h
+    rw [utf8ToUtf8Loop] at h
+    cases hp : utf8ToUnicode xs len with
+    | oob => simp [hp] at h
+    | ret r uc =>
+      simp only [hp] at h
+      by_cases hr0 : r = 0
+      · simp only [hr0, if_true, Conv.ok.injEq, true_and] at h
+        refine ⟨[], by simp, by simp, by simp, ?_, by simp [encSeq, h]⟩
+        rcases (utf8ToUnicode_zero xs len r uc hp).1 hr0 with h0 | h0
+        · exact .inl (by simp [h0])
+        · exact .inr (by simpa using h0)
+      rw [if_neg hr0] at h
+      -- one step: `k` bytes consumed, code point `c` appended, written as `(c, pair)` in the source
+      have step : ∀ (k : Nat) (c : Nat) (pair : Bool) (app : List Nat), 0 < k → k ≤ len →
+          Carries .utf8 c → (pair = true → 0x10000 ≤ c) →
+          xs.take k = srcItem .utf8 c pair → k = (srcItem .utf8 c pair).length → app = unicodeToUtf8 4 c →
+          utf8ToUtf8Loop (xs.drop k) (len - k) (acc ++ app) 0 = .ok 0 out →
+          ∃ items : List (Nat × Bool),
+            (∀ it ∈ items, Carries .utf8 it.1 ∧ (it.2 = true → 0x10000 ≤ it.1)) ∧
+            (items.flatMap (fun it => srcItem .utf8 it.1 it.2)).length ≤ len ∧
+            xs.take (items.flatMap (fun it => srcItem .utf8 it.1 it.2)).length = items.flatMap (fun it => srcItem .utf8 it.1 it.2) ∧
+            ((items.flatMap (fun it => srcItem .utf8 it.1 it.2)).length = len ∨
+              xs[(items.flatMap (fun it => srcItem .utf8 it.1 it.2)).length]? = some 0) ∧
+            out = acc ++ encSeq .utf8 (items.map (·.1)) := by
+        intro k c pair app hk0 hkl hcar hpr htake hl happ hrec
+        obtain ⟨items, hit, hlen', htk, hend, hout⟩ := ih (len - k) (by omega) (xs.drop k) _ out (by simp; omega) hrec
+        refine ⟨(c, pair) :: items, ?_, ?_, ?_, ?_, ?_⟩
+        · intro it hmem
+          simp at hmem
+          rcases hmem with h1 | h1
+          · subst h1; exact ⟨hcar, hpr⟩
+          · exact hit it h1
+        · simp only [List.flatMap_cons, List.length_append]; omega
+        · simp only [List.flatMap_cons, List.length_append]
+          rw [← hl, List.take_add, htake, htk]
+        · simp only [List.flatMap_cons, List.length_append]
+          rcases hend with he | he
+          · left; omega
+          · right
+            rw [List.getElem?_drop] at he
+            rw [← hl]; exact he
+        · rw [hout, happ]; simp [encSeq, unparse]
+      by_cases hpos : 0 < r
+      · rw [if_pos hpos] at h
+        split at h
+        case isFalse => simp at h
+        rename_i hk
+        obtain ⟨c, hc, hcp, hsc, htake, hl, hn⟩ := utf8ToUnicode_canonical xs len r uc hp hpos
+        exact step r.toNat c false (xs.take r.toNat) hk.2 hk.1 ⟨hsc, fun _ => hcp⟩ (by simp)
+          (by simpa [srcItem, unparse] using htake) (by simpa [srcItem, unparse] using hl) htake h
+      · rw [if_neg hpos] at h
+        split at h
+        · simp at h
+        · rename_i n uc' hdec
+          split at h
+          · simp at h
+          split at h
+          case isFalse => simp at h
+          rename_i hk0 hkl
+          by_cases hneg : n < 0
+          · simp only [hneg, if_true] at h
+            have := utf8ToUtf8Loop_ret_neg _ _ _ _ _ h
+            omega
+          simp only [hneg, if_false] at h
+          -- a positive count here can only come from the CESU-8 decoder
+          by_cases hsur : r = -3 ∧ isSurrogate (uc.getD 0) = true
+          · rw [if_pos hsur] at hdec
+            have hnpos : 0 < n := by omega
+            obtain ⟨c, pair, hc, hcar, hpr, htake, hl, hnle⟩ :=
+              parse_canonical .utf8 xs len n uc' (fun h => absurd rfl h) hdec hnpos
+            subst hc
+            have hkn : n.natAbs = n.toNat := by omega
+            rw [hkn] at h hk0 hkl
+            exact step n.toNat c pair _ (by omega) hkl hcar (fun hp' => (hpr hp').2) htake hl rfl h
+          · rw [if_neg hsur] at hdec
+            simp only [Dec.ret.injEq] at hdec
+            omega
+
+/-- `mbsnbytes`: at most `n`, inside the block, stops at the first NUL and not before. -/
+theorem mbsnbytes_spec (xs : List Nat) (n : Nat) :
+    mbsnbytes xs n ≤ n ∧ mbsnbytes xs n ≤ xs.length ∧
+      (∀ i, i < mbsnbytes xs n → xs[i]? ≠ some 0) ∧
+      (mbsnbytes xs n < n → mbsnbytes xs n < xs.length → xs[mbsnbytes xs n]? = some 0) := by
+  induction xs generalizing n with
+  | nil => cases n <;> simp [mbsnbytes]
+  | cons b xs ih =>
+    cases n with
+    | zero => simp [mbsnbytes]
+    | succ n =>
+      simp only [mbsnbytes]
+      by_cases hb : b = 0
+      · simp [hb]
+      · simp only [hb, if_false]
+        obtain ⟨h1, h2, h3, h4⟩ := ih n
+        refine ⟨by omega, by simp; omega, ?_, ?_⟩
+        · intro i hi
+          cases i with
+          | zero => simp [hb]
+          | succ i => simpa using h3 i (by omega)
+        · intro ha hb'
+          simpa using h4 (by omega) (by simpa using hb')
+
 end LA.Unicode
